@@ -298,6 +298,7 @@ func Gen(rng *rand.Rand, o GenOpts) *Machine {
 		}
 	}
 	attach := make([]int, nn) // the DRAM node a special node is closest to
+	attach2 := make([]int, nn) // … and, for ties, a second equally close one (else the same)
 	for i := cpuNodes; i < nn; i++ {
 		m.Nodes[i].ID = i
 		a := rng.Intn(cpuNodes)
@@ -305,6 +306,15 @@ func Gen(rng *rand.Rand, o GenOpts) *Machine {
 			a = rng.Intn(cpuNodes)
 		}
 		attach[i] = a
+		attach2[i] = a
+		if cpuNodes > 2 && rng.Intn(3) == 0 {
+			// a memory-only node equally close to two CPU-bearing DRAM nodes (e.g. a socket-wide PMEM node under sub-NUMA clustering)
+			b := rng.Intn(cpuNodes)
+			for b == memless || b == a {
+				b = rng.Intn(cpuNodes)
+			}
+			attach2[i] = b
+		}
 		nodePkg[i] = nodePkg[a]
 		if rng.Intn(3) == 0 {
 			m.Nodes[i].Kind = "HBM"
@@ -323,7 +333,7 @@ func Gen(rng *rand.Rand, o GenOpts) *Machine {
 			switch {
 			case i == j:
 				d = 10
-			case i >= cpuNodes && attach[i] == j, j >= cpuNodes && attach[j] == i:
+			case i >= cpuNodes && (attach[i] == j || attach2[i] == j), j >= cpuNodes && (attach[j] == i || attach2[j] == i):
 				d = 17
 			case i >= cpuNodes || j >= cpuNodes:
 				d = 28
